@@ -278,7 +278,13 @@ def run_unit(unit: Unit, repo: str = REPO, probe: bool = True, tag: str = '', _d
         ur.wall_s = time.time() - t0
         return ur
     ur.failures = map_failures(unit, out, vr, text)
-    if vr.errors and not ur.failures:
+    # failures of a function that uses results Verus knows nothing about are undecided, not verdicts
+    und = [f for f in ur.failures if f.obligation.split('#')[0] in out.unconstrained and not f.obligation.endswith('#safety')]
+    if und:
+        ur.failures = [f for f in ur.failures if f not in und]
+        ur.undecided = [f'{f.obligation}: undecided because ' + '; '.join(out.unconstrained[f.obligation.split("#")[0]][:3]) for f in und]
+        ur.undecided_failures = und
+    if vr.errors and not ur.failures and not getattr(ur, 'undecided', None):
         ur.reason = 'Verus reported errors that could not be mapped: ' + vr.stderr[-400:]
         ur.wall_s = time.time() - t0
         return ur
@@ -287,6 +293,9 @@ def run_unit(unit: Unit, repo: str = REPO, probe: bool = True, tag: str = '', _d
         ur.wall_s = time.time() - t0
         return ur
     ur.status = 'failed' if ur.failures else 'ok'
+    if getattr(ur, 'undecided', None) and not ur.failures:
+        ur.status = 'undecided'
+        ur.reason = ' | '.join(ur.undecided[:4])
     if ur.failures and out.uncontracted:
         ur.status = 'inconclusive'
         ur.reason = 'obligations failed while functions without a contract are present (needs contract, not a verdict): ' + \
